@@ -836,6 +836,18 @@ package iscp
 //@   after call context.AfterFunc: wakeOnTimeout = wakeOnTimeout || arg0 == parentCtx
 //@   assert[C08] call Cond).Wait: wakeOnCtx && wakeOnTimeout
 //@   loop 1 invariant[C08] wakeOnCtx && wakeOnTimeout
+// ... and a wake-up for a bound must not fall between the loop's look at the bound and its Wait:
+// the drain loop holds receivedAck.L from the look to the Wait, so whoever wakes it takes that lock
+// (a bare Broadcast - or the method value handed to context.AfterFunc - can be lost, and with a
+// broker that never acknowledges Close then sleeps past its bound)
+//@ condlocked[C08] Upstream.receivedAck
+// The same for the event dispatchers (C10: no goroutine of a closed stream or connection survives):
+// dispatchLoop looks at its context and then Waits with cond.L held in between; the wake-ups sent
+// when that context ends take the lock (eventDispatcher.wake), a bare Broadcast there was lost about
+// once in 100000 closes and left the dispatcher goroutine asleep for good.
+// (the Broadcasts at the end of the two stream run functions are redundant nudges - nothing the
+//  dispatcher polls changes there, its context belongs to the stream's watcher - and stay bare)
+//@ condlocked[C10] eventDispatcher.cond except (*Upstream).run (*Downstream).run
 
 // ---------------------------------------------------------------- C03: metadata forwarders
 // The per-source forwarders of a metadata subscription live as long as the wire connection they
